@@ -712,7 +712,7 @@ fn mapops_case(inp: &Value) -> Option<String> {
     let ct: Vec<SupportedConeT<f64>> = cones.iter().map(|c| c.cone()).collect();
     let mut settings = DefaultSettings::<f64>::default();
     settings.verbose = false;
-    settings.direct_solve_method = "qdldl".to_string();
+    settings.direct_solve_method = inp.get("method").and_then(|x| x.as_str()).unwrap_or("qdldl").to_string();
     let ops = inp["ops"].as_array().unwrap().clone();
     let r = guarded(move || {
         let mut d = vh::Driven::new(&p.csc(), &a.csc(), &ct, settings);
@@ -724,6 +724,10 @@ fn mapops_case(inp: &Value) -> Option<String> {
                          coq_ops.push(format!("OpU {} {}", cnlist(&idx), dyl(&v))); }
                 "s" => { let idx = usize_vec(&op["idx"]); let c = op["c"].as_f64().unwrap(); d.scale_values(&idx, c);
                          coq_ops.push(format!("OpS {} {}", cnlist(&idx), cdy(c))); }
+                "o" => { let idx = usize_vec(&op["idx"]); let c = op["c"].as_f64().unwrap();
+                         let sg: Vec<i8> = i64_vec(&op["sg"]).iter().map(|x| *x as i8).collect();
+                         d.offset_values(&idx, c, &sg);
+                         coq_ops.push(format!("OpO {} {} {}", cnlist(&idx), cdy(c), czlist(&sg.iter().map(|x| *x as i64).collect::<Vec<_>>()))); }
                 "P" => { let v = f64_vec(&op["v"]); let mut p2 = p.csc(); p2.nzval = v.clone(); d.update_P(&p2);
                          coq_ops.push(format!("OpU {} {}", cnlist(&before.maps.P), dyl(&v))); }
                 "A" => { let v = f64_vec(&op["v"]); let mut a2 = a.csc(); a2.nzval = v.clone(); d.update_A(&a2);
@@ -749,7 +753,7 @@ fn mapops_case(inp: &Value) -> Option<String> {
 
 fn gen_mapops(sink: &mut CaseSink, st: &mut Stats, rng: &mut Rng, thorough: bool) {
     let pool: Vec<CD> = vec![CD::Z(1), CD::NN(2), CD::SOC(3), CD::SOC(5), CD::SOC(6), CD::EXP, CD::GP(alpha_for(2), 1), CD::PSD(2)];
-    let nd = if thorough { 200 } else { 40 };
+    let nd = if thorough { 300 } else { 60 };
     for it in 0..nd {
         let nc = 1 + rng.below(4);
         let cs: Vec<CD> = (0..nc).map(|_| rng.pick(&pool).clone()).collect();
@@ -766,7 +770,12 @@ fn gen_mapops(sink: &mut CaseSink, st: &mut Stats, rng: &mut Rng, thorough: bool
         let nops = 1 + rng.below(6);
         let mut ops = vec![];
         for _ in 0..nops {
-            match rng.below(6) {
+            match rng.below(8) {
+                6 | 7 => { let k = rng.below(nnz.min(8) + 1);
+                           let idx: Vec<usize> = (0..k).map(|_| rng.below(nnz)).collect();
+                           let sg: Vec<i64> = (0..k).map(|_| if rng.chance(1, 2) { 1 } else { -1 }).collect();
+                           let c = dy8(rng, -16, 16);
+                           ops.push(json!({"k": "o", "idx": idx, "c": c, "sg": sg})); }
                 0 | 1 => { let k = rng.below(nnz.min(8) + 1);
                            let idx: Vec<usize> = (0..k).map(|_| rng.below(nnz)).collect();   // repeats allowed
                            let v: Vec<f64> = (0..k).map(|_| dy8(rng, -64, 64)).collect();
@@ -779,9 +788,10 @@ fn gen_mapops(sink: &mut CaseSink, st: &mut Stats, rng: &mut Rng, thorough: bool
                 _ => { let v: Vec<f64> = a.nzval.iter().map(|_| dy8(rng, -32, 32)).collect(); ops.push(json!({"k": "A", "v": v})); }
             }
         }
-        let inp = json!({"P": p.json(), "A": a.json(), "cones": cds_json(&cs), "ops": ops});
+        let method = if it % 2 == 0 { "qdldl" } else { "faer" };
+        let inp = json!({"P": p.json(), "A": a.json(), "cones": cds_json(&cs), "ops": ops, "method": method});
         if let Some(coq) = mapops_case(&inp) {
-            st.hit("values/mapops");
+            st.hit(&format!("values/mapops-{}", method));
             sink.case("mapops", inp, coq, &["values", "mapops"]);
         } else {
             st.hit("values/mapops-skipped");
